@@ -32,6 +32,7 @@ type v10Source struct {
 	tick      chan struct{}
 	procCh    chan struct{} // a token per processed block (never blocks the core loop)
 	writeDir  string        // if set, writing is switched on inside StartRun (before the core loop exists)
+	pauseW    bool          // ... and then paused
 	behave    bool          // restart phase: the source runs normally
 }
 
@@ -103,6 +104,11 @@ func (s *v10Source) StartRun() error {
 	if s.writeDir != "" {
 		if err := s.WriteControl(&WriteControlConfig{Request: "START", Path: s.writeDir, WriteLJH22: true}); err != nil {
 			return err
+		}
+		if s.pauseW {
+			if err := s.WriteControl(&WriteControlConfig{Request: "PAUSE"}); err != nil {
+				return err
+			}
 		}
 	}
 	go func() {
@@ -297,7 +303,8 @@ type v10Scenario struct {
 	nblocks  int
 	failStep string
 	nstop    int  // number of concurrent Stop callers (in addition to the starter, if starterStops)
-	writing  bool // writing switched on (through the request queue) before the Stops
+	writing  bool // writing switched on before the Stops
+	paused   bool // ... and paused
 	twoStart bool // S4: Start || Start on an inactive source
 	history  bool // S5: one thread, Start/Stop/Start histories
 	nreq     int  // S6/S7: threads that hand a request to the core loop (as runLaterIfActive does)
@@ -313,6 +320,7 @@ func (sc v10Scenario) run(x *vexp.X, dir string) vexp.Result {
 	src := v10New(sc.mode, sc.nblocks, sc.failStep)
 	if sc.writing {
 		src.writeDir = dir
+		src.pauseW = sc.paused
 	}
 	queued := make(chan func())
 	var viol, class string
@@ -360,6 +368,10 @@ func (sc v10Scenario) run(x *vexp.X, dir string) vexp.Result {
 			}
 			if st := src.GetState(); st != Inactive {
 				fail("not-inactive", "after the run ended the state is %v", st)
+				return
+			}
+			if src.WritingIsActive() {
+				fail("writing-still-active", "the run has ended (state Inactive) but writing is still active")
 				return
 			}
 			if err := Start(src, queued, 3, 6); err != nil {
@@ -525,7 +537,7 @@ func TestVerifC10(t *testing.T) {
 	if r.Thorough() {
 		pbCore, pbWide, pbDelay = 3, 2, 5
 	}
-	r.SetBound(fmt.Sprintf("all interleavings (all select alternatives) with at most %d preemptions for the core scenarios (Start + 2 concurrent Stop callers against the real CoreLoop and a scripted producer that runs normally / sends an error block / closes its channel) and at most %d for the wider ones (Start || Start, 1-2 blocks before the event, 3 Stop callers, writing active, a request handed to the core loop while Stop is called, Start/Stop/Start histories incl. a first Start failing in Sample, PrepareRun or StartRun), each followed by a restart of the same source object; and the real AbacoSource (scripted packet producer, clock thread) and LanceroSource (scripted card, clock thread) under Start, a queued request and Stop; the request and Abaco scenarios are delay-bounded: at most %d deviations of any kind (thread choice or select alternative) from the canonical schedule", pbCore, pbWide, pbDelay))
+	r.SetBound(fmt.Sprintf("all interleavings (all select alternatives) with at most %d preemptions for the core scenarios (Start + 2 concurrent Stop callers against the real CoreLoop and a scripted producer that runs normally / sends an error block / closes its channel) and at most %d for the wider ones (Start || Start, 1-2 blocks before the event, 3 Stop callers, writing active or paused, a request handed to the core loop while Stop is called, Start/Stop/Start histories incl. a first Start failing in Sample, PrepareRun or StartRun), each followed by a restart of the same source object; and the real AbacoSource (scripted packet producer, clock thread) and LanceroSource (scripted card, clock thread) under Start, a queued request and Stop; the request and Abaco scenarios are delay-bounded: at most %d deviations of any kind (thread choice or select alternative) from the canonical schedule", pbCore, pbWide, pbDelay))
 	dir := filepath.Join(os.Getenv("TMPDIR"), "c10")
 	os.MkdirAll(dir, 0755)
 	var scs []v10Scenario
@@ -541,7 +553,14 @@ func TestVerifC10(t *testing.T) {
 	}
 	scs = append(scs, v10Scenario{name: "S-normal/writing", mode: "normal", nblocks: 1, nstop: 1, writing: true})
 	scs = append(scs, v10Scenario{name: "S-errblock/writing", mode: "errblock", nblocks: 1, nstop: 1, writing: true})
+	for _, mode := range []string{"normal", "errblock", "close"} {
+		scs = append(scs, v10Scenario{name: "S-" + mode + "/writing-paused", mode: mode, nblocks: 1, nstop: 1, writing: true, paused: true})
+	}
 	scs = append(scs, v10Scenario{name: "S4-start||start", mode: "normal", nblocks: 1, twoStart: true})
+	for _, mode := range []string{"errblock", "close"} {
+		scs = append(scs, v10Scenario{name: "S5-history/writing/" + mode, mode: mode, nblocks: 1, history: true, writing: true})
+		scs = append(scs, v10Scenario{name: "S5-history/writing-paused/" + mode, mode: mode, nblocks: 1, history: true, writing: true, paused: true})
+	}
 	for _, f := range []string{"", "sample", "prepare", "startrun"} {
 		for _, mode := range []string{"normal", "errblock", "close"} {
 			scs = append(scs, v10Scenario{name: fmt.Sprintf("S5-history/fail=%s/%s", f, mode), mode: mode, nblocks: 1, failStep: f, history: true})
